@@ -373,11 +373,11 @@ def run(ctx, args):
         return replay_file(ctx, args.replay)
     rng = ctx.rng
     quick = ctx.tier == "quick"
-    n_x = 1600 if quick else 40000
-    n_xz = 120 if quick else 1500
-    n_path = 3000 if quick else 100000
-    n_lib = 60 if quick else 600
-    n_conc = 14 if quick else 120
+    n_x = 1000 if quick else 25000
+    n_xz = 80 if quick else 1000
+    n_path = 2000 if quick else 100000
+    n_lib = 40 if quick else 600
+    n_conc = 10 if quick else 120
     have_xz = shutil.which("xz") is not None and shutil.which("tar") is not None
 
     st = lean_check(ctx, ["LlgoVerif.Props.C20"], ["LlgoVerif/Props/C20.lean"], extra_files=LEAN_FILES,
@@ -448,6 +448,7 @@ def run(ctx, args):
 
     rlines = ["x %s %s" % (fmt, enc_entries(es)) for (_, fmt, es) in cases]
     routs = real(rlines)
+    ctx.log("%d archives extracted by the real code" % len(rlines))
     midx = [i for i, c in enumerate(cases) if c[1] != "txz"]
     mouts_l = model(["x %s %s %s" % (cfg, cases[i][1], enc_entries(cases[i][2])) for i in midx])
     mouts = dict(zip(midx, mouts_l))
@@ -589,7 +590,9 @@ def run(ctx, args):
                 es = [("d", b"pkg/", b"", b"")] + [(k, b"pkg/" + (nm[2:] if nm.startswith(b"./") else nm), d, l) for (k, nm, d, l) in es if rel_comps(nm)[0]]
         concs.append((rng.choice(["go", "proc"]), rng.randint(2, 4), f, s, n, es))
     clines = ["conc %s %d %s %s %s %s" % (m, k, f, hx(s), hx(n), enc_entries(es)) for (m, k, f, s, n, es) in concs]
+    ctx.log("path functions compared (%d lines)" % len(plines))
     louts = real(llines + clines, timeout=1800)
+    ctx.log("%d single-caller and %d concurrent runs done" % (len(llines), len(clines)))
     lmod = model(["lib %s %s %s %s" % (cfg, hx(s), hx(n), enc_entries(es)) for (f, s, n, es) in libs] +
                  ["lib %s %s %s %s" % (cfg, hx(s), hx(n), enc_entries(es)) for (m, k, f, s, n, es) in concs])
     lib_stats = {"lib_ok": 0, "lib_err": 0, "conc_ok": 0, "conc_err": 0, "lib_nomodel": 0}
